@@ -44,7 +44,8 @@ def budgets? (s : String) : Option (List BEntry) :=
     | _, _ => none) (some [])
 
 def kind? : String → Option TKind
-  | "p" => some .progress | "t" => some .terminated | "f" => some .finalized | _ => none
+  | "p" => some .progress | "t" => some .terminated | "f" => some .finalized
+  | "c" => some .common | "r" => some .rejected | _ => none
 
 def endOf (d : DS) (q : List Tx) : DS × String :=
   let s' := endBlock d.P d.h (q.foldl (applyTx d.h d.s) d.s)
